@@ -17,7 +17,8 @@ RULE = (
     "decimal-rounded forms, in all orders, times the full option product of the three slicers (right_open, reference incl. callable, "
     "value_range, include_max, last_full, n_intervals/n_points, min_n_points, min_n_intervals). Part random (Hypothesis): vectors of "
     "50-20000 values rounded to 0.1/0.01 with ties in arbitrary order and generated options. Oracle: reference semantics from the "
-    "docstrings, assignment-agnostic for values within 1e-9*w of an interior edge (either neighbour, but exactly one). "
+    "docstrings, assignment-agnostic for values within 1e-9*w of an interior edge (either neighbour, but exactly one); random part also as a "
+    "history: the same slicer instance slices another record first and must then give what a fresh slicer gives. "
     "Non-trivial: a value exactly on an interval edge or unsorted input; distinct by sha1 of the case."
 )
 ASSUMPTIONS = [
@@ -398,6 +399,44 @@ def enum_lattice(tier, shard, nshards):
 # ---------------------------------------------------------------------------------------
 # part: random long vectors
 # ---------------------------------------------------------------------------------------
+def verify_reuse(kind, opts, data, ctx, tag, seed):
+    """history oracle: a slicer that has sliced other data before gives what a fresh slicer of the same options gives
+    (seeded change C10e: the range resolved from the first data was kept on the object)"""
+    which = seed % 3
+    first = [0.35 * data, 2.0 * data + 1.0, data[data <= np.median(data)]][which]
+    ctx.cls(f"reuse_first={['calmer', 'wilder', 'lower_half'][which]}")
+    try:
+        s = make_slicer(kind, opts)
+    except Exception:  # noqa: BLE001
+        return
+    try:
+        s.slice_(first)
+    except Exception:  # noqa: BLE001  (a refusal of the first record is the slicer's right)
+        pass
+    try:
+        got = ("ok",) + tuple(s.slice_(data))
+    except RuntimeError as e:
+        got = ("RuntimeError", str(e))
+    except Exception as e:  # noqa: BLE001
+        got = ("other", e)
+    fresh = run_slicer(kind, opts, data)
+    if got[0] != fresh[0]:
+        ctx.violation(f"reuse:{kind}:outcome", f"{tag}: reused slicer -> {got[0]}, fresh slicer -> {fresh[0]}")
+        return
+    if got[0] != "ok":
+        return
+    _, m1, r1, b1 = got
+    _, m2, r2, b2 = fresh
+    if len(m1) != len(m2):
+        ctx.violation(f"reuse:{kind}:interval_count", f"{tag}: reused slicer gives {len(m1)} intervals, a fresh one {len(m2)}")
+        return
+    same = all(np.array_equal(np.asarray(a), np.asarray(b)) for a, b in zip(m1, m2))
+    same = same and np.array_equal(np.asarray(r1, dtype=float), np.asarray(r2, dtype=float), equal_nan=True)
+    same = same and np.array_equal(np.asarray(b1, dtype=float), np.asarray(b2, dtype=float), equal_nan=True)
+    if not same:
+        ctx.violation(f"reuse:{kind}:differs", f"{tag}: a slicer that sliced other data before gives other intervals than a fresh one")
+
+
 def check_random(case, ctx):
     rng = np.random.default_rng(case["seed"])
     n = case["n"]
@@ -422,6 +461,7 @@ def check_random(case, ctx):
         verify_grid(kind, opts, data, ctx, tag)
     perm = np.random.default_rng(case["seed"] + 1).permutation(n)
     verify_equivariance(kind, opts, data, perm, ctx, tag)
+    verify_reuse(kind, opts, data, ctx, tag, case["seed"])
 
 
 def strat_random(tier):
